@@ -468,6 +468,55 @@ def r104(facts, res):
     res.floor(R, 'token-set insertions in the Yacc parser', n, 5)
 
 
+def r106(facts, res):
+    """`ast.spans` is PARALLEL to the token index set `ast.tokens` (token i's span is spans[i]): it grows by one exactly when an
+    insertion into the token set reports a NEW token.  Every push onto it lies on the "was new" side of such an insertion, and
+    that side pushes; an unconditional push shifts the span of every token that first appears later."""
+    R = 'R10.6'
+    n = 0
+    for b in facts.lib_bodies(['cfgrammar']):
+        if not b.path.startswith('cfgrammar::yacc::parser::') or b.from_expansion:
+            continue
+        def field_names(op):
+            r, projs, via = b.op_root(op)
+            return [q.get('name') for pl in projs for q in pl if isinstance(q, dict) and 'f' in q]
+        pushes = [(bb, t) for bb, t in b.calls_named('push') if t['args'] and 'spans' in field_names(t['args'][0]) and 'ast' in field_names(t['args'][0])]
+        if not pushes:
+            continue
+        # "was new" regions: blocks dominated by the true successor of a switch on the result of tokens.insert
+        new_regions = []
+        for bb, t in b.calls():
+            c = callee_of(t)
+            if c is None or c['name'] not in ('insert', 'insert_full') or not (c.get('self_ty') or '').startswith('indexmap::set::IndexSet<alloc::string::String'):
+                continue
+            if 'tokens' not in field_names(t['args'][0]):
+                continue
+            dest = t['dest']['l']
+            for sb in (b.reachable([t['ret']]) if t['ret'] is not None else []):
+                tt = b.term(sb)
+                if tt['k'] != 'switch':
+                    continue
+                pl = op_place(tt['on'])
+                if pl is None:
+                    continue
+                rr, pj, vv = b.root(pl['l'], through=(), stop_named=False)
+                if rr == dest and b.dominates(bb, sb):
+                    new_regions.append((bb, tt['otherwise']))
+                    break
+        for pb, pt in pushes:
+            n += 1
+            key = 'span-push:%s@L%d' % (strip_generics(b.path).split('::')[-1], [x[0] for x in pushes].index(pb))
+            if any(b.dominates(ts, pb) for _ib, ts in new_regions):
+                res.ok(R, key, loc_of(b, pb), 'pushed only when the token-set insertion reported a new token')
+            else:
+                res.bad(R, key, loc_of(b, pb), 'a span is pushed onto the table parallel to the token set although no insertion into the token set reported a new token on '
+                        'this path: the table gets one entry too many and every token that first appears later is given the span of earlier text')
+        for ib, ts in new_regions:
+            if not any(b.dominates(ts, pb) for pb, _pt in pushes):
+                res.bad(R, 'span-push-missing:%s@%d' % (strip_generics(b.path).split('::')[-1], ib), loc_of(b, ib), 'a new token is added to the token set but no span is pushed for it')
+    res.floor(R, 'pushes onto the token span table', n, 4)
+
+
 def r105(facts, res):
     """"each rule/production/token span points at the text that defines it", for names: (a) parse_name(i) returns the cursor
     i + E together with exactly src[i .. i + E]; (b) every Ok return of parse_token carries a span whose bounds are the bounds of
@@ -592,6 +641,7 @@ def r105(facts, res):
 
 def run(facts, res):
     r105(facts, res)
+    r106(facts, res)
     r101(facts, res)
     r102(facts, res)
     r104(facts, res)
